@@ -285,18 +285,33 @@ type mfSection struct {
 func parseManifestSections(b []byte) ([]mfSection, error) {
 	text := strings.ReplaceAll(string(b), "\r\n", "\n")
 	text = strings.ReplaceAll(text, "\r", "\n")
-	var secs []mfSection
-	var cur *mfSection
+	// continuation lines (one leading SPACE) are joined to the line before them
+	// BEFORE the header is split into name and value, as java.util.jar.Attributes
+	// reads them: a break may fall anywhere in the line, also inside the name or
+	// between the colon and the blank
+	var logical []string
+	open := false // the last element of logical is a header line that may be continued
 	for _, line := range strings.Split(text, "\n") {
 		if line == "" {
-			cur = nil
+			logical = append(logical, "")
+			open = false
 			continue
 		}
 		if line[0] == ' ' {
-			if cur == nil || len(cur.attrs) == 0 {
+			if !open {
 				return nil, fmt.Errorf("manifest: continuation line without a header")
 			}
-			cur.attrs[len(cur.attrs)-1][1] += line[1:]
+			logical[len(logical)-1] += line[1:]
+			continue
+		}
+		logical = append(logical, line)
+		open = true
+	}
+	var secs []mfSection
+	var cur *mfSection
+	for _, line := range logical {
+		if line == "" {
+			cur = nil
 			continue
 		}
 		i := strings.Index(line, ": ")
